@@ -361,7 +361,8 @@ func c10Request(r *vlib.Rand, routes []refRoute) (refReq, string) {
 	}
 	for _, k := range rt.HeaderExists {
 		if _, ok := q.Header[k]; !ok {
-			q.Header[k] = []string{"present"}
+			// present with any value, including an empty one and an empty first instance
+			q.Header[k] = vlib.Pick(r, [][]string{{"present"}, {"present"}, {""}, {"", "x"}, {"x", ""}})
 		}
 	}
 	for _, m := range rt.Query {
